@@ -7,6 +7,7 @@ evaluation is followed by (a) a succeeding evaluation and (b) a second failing e
 Asserted: after the failure sp / bp / ep are what they are in a VM that never failed; the later evaluation returns the
 same value / failure and the SAME stack trace length as in a fresh VM; k consecutive failures leave sp where one does.
 """
+import os
 import z3
 from mirsym.values import *
 from mirsym.explore import explore
@@ -254,6 +255,80 @@ def make_stale_trace_harness(prog):
     return harness
 
 
+# ---- later evaluations through the real compiler: a failed top-level form leaves only its COMPLETED effects
+LATER = [
+    # (failing form, the effects it completed before failing, later probe)
+    ("(begin (car '()) (define-syntax ten (syntax-rules () ((_) 10))))", None, "(ten)"),
+    ("(begin (define-syntax m1 (syntax-rules () ((_) 1))) (if))", None, "(m1)"),
+    ("(begin (car '()) (define zz K))", None, "zz"),
+    ("(begin (define yy K) (car '()))", "(define yy K)", "yy"),
+    ("(begin (set! car cdr) (vector-ref (vector) K))", "(set! car cdr)", "(car '(1 . 2))"),
+    ("(let ((v (vector 1 2))) (define-syntax m2 (syntax-rules () ((_) 2))) (vector-ref v 5))", None, "(m2)"),
+    ("((lambda (x) (define-syntax when (syntax-rules () ((_ a b) 0))) (x)) 5)", None, "(when #t K)"),
+    ("(car K)", None, "(let ((a K)) (if a (begin a) 0))"),
+]
+
+
+def make_later_harness(prog, ws_src, idx):
+    from . import compilefab as CF
+    fab = Fab(prog)
+    C = CF.Cells(prog)
+    EVAL = prog.resolve_crate('Vm::eval'); LB = prog.resolve_crate('Vm::load_builtins')
+    prelude = CF.read_all(open(ws_src + '/marwood/prelude.scm').read())
+    failing, completed, probe = LATER[idx]
+
+    def subst(sx, env):
+        if isinstance(sx, list): return [subst(x, env) for x in sx]
+        if isinstance(sx, tuple) and sx[0] == 'sym' and sx[1] in env: return env[sx[1]]
+        if isinstance(sx, tuple) and sx[0] == 'dotted': return ('dotted', [subst(x, env) for x in sx[1]], subst(sx[2], env))
+        return sx
+
+    def harness(it):
+        f = fab
+        vm = f.vm(f.heap([f.vc('Nil')], 4096), f.stack([f.vc('Undefined') for _ in range(64)], 0))
+        vb = Cell(vm)
+        it.call(LB, [Ref(vb)])
+        for fm in prelude:
+            r = it.call(EVAL, [Ref(vb), Ref(Cell(C.of(fm)))])
+            if r.var != 0: raise Unsupported('the prelude does not evaluate through the encoding: %r' % (r,))
+        K = z3.BitVec('K', 64)
+        env = {'K': C.cv('Number', Agg('Number', 0, [K]))}
+        cell = lambda src: C.of(subst(CF.read_all(src)[0], env))
+        va, vr = Cell(it.clone(vb.v)), Cell(it.clone(vb.v))
+        r = it.call(EVAL, [Ref(va), Ref(Cell(cell(failing)))])
+        if r.var != 1: raise Unsupported('the form %s was expected to fail' % failing)
+        if completed is not None:
+            r = it.call(EVAL, [Ref(vr), Ref(Cell(cell(completed)))])
+            if r.var != 0: raise Unsupported('the completed prefix %s fails' % completed)
+        ra = it.call(EVAL, [Ref(va), Ref(Cell(cell(probe)))])
+        rr = it.call(EVAL, [Ref(vr), Ref(Cell(cell(probe)))])
+        m = it.witness()
+        kv = m.eval(K, model_completion=True).as_signed_long() if m is not None else 0
+        req = {'cmd': 'c07later', 'idx': idx, 'K': kv}
+        def show(r): return 'error #%d' % r.f[0].var if r.var == 1 else 'a value'
+        same = ra.var == rr.var and ((ra.var == 1 and ra.f[0].var == rr.f[0].var) or (ra.var == 0 and it.must(values_equal(it, ra.f[0], rr.f[0]))))
+        if not same:
+            return {'what': 'after the failed form %s the later form %s gives %s; in a VM that only performed %s it gives %s' % (failing, probe, show(ra), completed or 'nothing', show(rr)),
+                    'key': 'failed-form-leaves-a-trace-visible-to-later-forms', 'request': req}
+        it.ghost['tags'] = ['later-form-agrees']
+        return None
+    return harness
+
+
+def native_later(replay, req):
+    failing, completed, probe = LATER[req['idx']]
+    k = str(req.get('K', 0))
+    replay.ask('newvm')
+    a0 = replay.ask('eval %s' % hexs(failing.replace('K', k)))
+    a = replay.ask('eval %s' % hexs(probe.replace('K', k)))
+    replay.ask('newvm')
+    if completed: replay.ask('eval %s' % hexs(completed.replace('K', k)))
+    r = replay.ask('eval %s' % hexs(probe.replace('K', k)))
+    if not a0.startswith('ERR'): return None, 'natively the form %s does not fail: %s' % (failing, a0[:60])
+    dec = lambda o: ' '.join(unhexs(x) for x in o.split()[1:2]) if len(o.split()) > 1 else o
+    return a != r, 'after the failed form %s, %s => %s %s; in a VM that only performed %s => %s %s' % (failing, probe, a.split()[0], dec(a), completed or 'nothing', r.split()[0], dec(r))
+
+
 def native_trace(replay, req):
     """(car 1) fails at run time (trace recorded), then a form that fails before running: which trace is reported?"""
     form = {'Nil': '()', 'Void': '()', 'Undefined': '()', 'Macro': '()', 'Continuation': '()'}.get(req['atom'])
@@ -335,10 +410,19 @@ def run(chk, ws, prog, tier, replays):
         if b1 is None and b2 is None:
             chk.inconclusive.append('stack-trace-of-a-later-compile-failure: %s' % d1); continue
         chk.violation(v['key'], (d1 if b1 else d2) + ' | ' + v['what'], v['request'], bool(b1) or bool(b2))
+    # The later-evaluation lemma (make_later_harness: failing SOURCE forms through the real compiler, then a later form in the same VM
+    # against a VM that only performed the completed effects) is NOT part of the check: on the unchanged tree five of its eight forms end
+    # in an interpreter-side panic ("invalid environment slot": internal defines inside the lambda that `begin` expands to, the order of
+    # the modelled HashSet differs from what the compiler assumes) and one comparison of equal values is not decided.  It is kept for
+    # development (VERIF_C07_LATER=1 runs it, results are reported as inconclusive only); seeded change C07C stays missed.
+    if os.environ.get('VERIF_C07_LATER'):
+        from mirsym.explore import explore_many
+        for name, res in explore_many(prog, [('later-evaluation/%d' % i, make_later_harness(prog, ws.src(), i), {'on_panic': on_panic, 'render_fmt': False, 'step_limit': 30000000}) for i in range(len(LATER))], parallel=8, nproc_each=1):
+            print('  [experimental] %-40s %s %s' % (name, res.summary(), [v['what'][:120] for v in res.violations]), flush=True)
     chk.extra['rule'] = ('evaluations = solver queries + MIR steps are reported per harness; distinct_nontrivial = completed paths (one per shape: call depth x error source x '
                          'number of failures; the data operand is symbolic). The shapes are enumerated, the run loop is executed from MIR.')
     chk.assumptions += ['read errors touch no VM state (parse_text takes no VM); compile errors: the stack-trace register is checked on prepare_eval of atoms, other state touched by a failing compile of compound forms is argued only; heap and global effects are "completed effects" by definition',
-                        'programs are fabricated bytecode, not compiler output; failures inside a continuation are outside']
+                        'programs are fabricated bytecode, not compiler output (effects of a failing COMPILE of compound forms, e.g. a define-syntax bound at compile time, are outside: seeded change C07C is missed); failures inside a continuation are outside']
     chk.outside += ['call depth above 3', 'errors raised by builtins (same error arm of run_count)']
 
 
@@ -346,6 +430,9 @@ def replay_request(req, replays):
     from vlib import core
     prog = core.load_program(core.Workspace())
     models_vm.install(prog)
+    if req.get('cmd') == 'c07later':
+        b1, d1 = native_later(replays[0], req); b2, d2 = native_later(replays[1], req)
+        return bool(b1) or bool(b2), d1 if b1 else d2
     if req.get('cmd') == 'c07trace':
         b1, d1 = native_trace(replays[0], req); b2, d2 = native_trace(replays[1], req)
         return bool(b1) or bool(b2), d1 if b1 else d2
